@@ -47,6 +47,7 @@ type Program struct {
 	allFuncs  map[*ssa.Function]bool
 	GOARCH    string
 	execNames map[*ssa.Function]string
+	dispatcherFns map[*ssa.Function]bool
 }
 
 // loadProgram loads ./... of repo and builds SSA for the whole program.
